@@ -213,8 +213,9 @@ type topoDeco struct {
 
 func (d *topoDeco) Create(ctx context.Context, o *topoapi.Object) error {
 	d.inc.gate("topo.Create", true)
+	start := d.inc.w.nextSeq()
 	err := d.Topo.Create(ctx, o)
-	d.inc.w.logEvent(&Event{Kind: "topo.Create", OK: err == nil, Err: errStr(err), Note: string(o.ID), Inc: d.inc.N})
+	d.inc.w.logEvent(&Event{Kind: "topo.Create", OK: err == nil, Err: errStr(err), Note: string(o.ID), Inc: d.inc.N, StartSeq: start})
 	return err
 }
 func (d *topoDeco) Update(ctx context.Context, o *topoapi.Object) error {
